@@ -116,13 +116,14 @@ func genOpts(r *lib.Rand) OptsIn {
 
 // Job is one execution of a Lua program in a fresh state under a configuration.
 type Job struct {
-	Cfg  Cfg    `json:"cfg"`
-	Prog string `json:"prog"` // Lua source; may call emit(...), mark()
-	N    int    `json:"n"`    // value of the global N
-	Co   bool   `json:"co"`   // mark() is expected to be called from a coroutine
-	Want int    `json:"want"` // expected numeric result when the protected body completes
-	Api  bool   `json:"api"`  // the chunk returns a function; it is called with N through L.CallByParam{Protect} from Go
-	Kind string `json:"kind"` // "call" | "reg" | "": which overflow message counts as outcome 1
+	Cfg     Cfg    `json:"cfg"`
+	Prog    string `json:"prog"`              // Lua source; may call emit(...), mark()
+	N       int    `json:"n"`                 // value of the global N
+	Co      bool   `json:"co"`                // mark() is expected to be called from a coroutine
+	Want    int    `json:"want"`              // expected numeric result when the protected body completes
+	Api     bool   `json:"api"`               // the chunk returns a function; it is called with N through L.CallByParam{Protect} from Go
+	Kind    string `json:"kind"`              // "call" | "reg" | "": which overflow message counts as outcome 1
+	ApiArgs bool   `json:"apiargs,omitempty"` // with Api: N numeric arguments instead of the single argument N
 }
 
 // JobOut is what the child reports for one job.
@@ -130,9 +131,9 @@ type JobOut struct {
 	Trace   []int64 `json:"trace"`   // encoded emit log + final status
 	Outcome int     `json:"outcome"` // limit programs: 0 completed with Want, 1 caught overflow of the expected kind, 2 other error, 3 wrong value
 	ErrMsg  string  `json:"err,omitempty"`
-	Epi     bool    `json:"epi"`     // epilogue on the same state worked and Sp/top are back
-	MaxSp   int     `json:"maxsp"`   // deepest VerifSp seen by mark()
-	RegCap  int     `json:"regcap"`  // final registry capacity of the thread that called mark()
+	Epi     bool    `json:"epi"`    // epilogue on the same state worked and Sp/top are back
+	MaxSp   int     `json:"maxsp"`  // deepest VerifSp seen by mark()
+	RegCap  int     `json:"regcap"` // final registry capacity of the thread that called mark()
 	Fail    string  `json:"fail,omitempty"`
 }
 
@@ -225,7 +226,14 @@ func runJob(j Job) (out JobOut) {
 			// the chunk left a function: call it protected from Go, then present (ok, value|message) as pcall would
 			f := L.Get(1)
 			L.SetTop(0)
-			if e2 := L.CallByParam(lua.P{Fn: f, NRet: 1, Protect: true}, lua.LNumber(j.N)); e2 != nil {
+			cargs := []lua.LValue{lua.LNumber(j.N)}
+			if j.ApiArgs {
+				cargs = make([]lua.LValue, j.N)
+				for i := range cargs {
+					cargs[i] = lua.LNumber(i)
+				}
+			}
+			if e2 := L.CallByParam(lua.P{Fn: f, NRet: 1, Protect: true}, cargs...); e2 != nil {
 				L.SetTop(0)
 				L.Push(lua.LFalse)
 				if ae, ok := e2.(*lua.ApiError); ok && ae.Object != nil {
@@ -650,6 +658,11 @@ type limitProg struct {
 	want func(n int) int
 	co   bool
 	api  bool
+	// apiArgs: the chunk returns a function; it is called through L.CallByParam{Protect} with N arguments
+	apiArgs bool
+	// wide: one operation of the program asks for ~150 cells at once (a frame with 150 locals): also aim
+	// 57 and 160 cells beyond the limit so that the overflow happens in that operation
+	wide bool
 }
 
 var limitProgs = []limitProg{
@@ -715,6 +728,30 @@ var limitProgs = []limitProg{
 		      local ok2, v2 = coroutine.resume(co)
 		      if ok2 ~= false or not tostring(v2):find("dead") then return false, "second resume: " .. tostring(v2) end
 		      return ok, v`},
+	// a frame of 150 locals + varargs set up at the limit, by an ordinary call and by a TAIL call
+	// (the frame is rewritten in place, Pc = 0, before initCallFrame can raise)
+	{name: "bigframe", kind: "reg", wide: true, want: func(n int) int { return n },
+		src: `local big = loadstring("return function(...) local a0" .. (",x"):rep(150) .. " = ... ; mark() return select('#', ...) end")()
+		      local t = {} for i = 1, N do t[i] = i end
+		      return pcall(function() local r = big(unpack(t, 1, N)) return r end)`},
+	{name: "bigframe-tail", kind: "reg", wide: true, want: func(n int) int { return n },
+		src: `local big = loadstring("return function(...) local a0" .. (",x"):rep(150) .. " = ... ; mark() return select('#', ...) end")()
+		      local t = {} for i = 1, N do t[i] = i end
+		      return pcall(function() return big(unpack(t, 1, N)) end)`},
+	// resume arguments the coroutine's own registry cannot take (its first frame needs 2N+151 cells, the resumer N+few)
+	{name: "resume-args", kind: "reg", co: true, wide: true, want: func(n int) int { return n },
+		src: `local big = loadstring("return function(...) local a0" .. (",x"):rep(150) .. " = ... ; mark() return select('#', ...) end")()
+		      local t = {} for i = 1, N do t[i] = i end
+		      local co = coroutine.create(big)
+		      local ok, v = coroutine.resume(co, unpack(t, 1, N))
+		      if coroutine.running() ~= nil then return false, "main thread is not running" end
+		      if coroutine.status(co) ~= "dead" then return false, "status " .. coroutine.status(co) end
+		      local ok2, v2 = coroutine.resume(co)
+		      if ok2 ~= false or not tostring(v2):find("dead") then return false, "second resume: " .. tostring(v2) end
+		      return ok, v`},
+	// many arguments given to a protected call from Go
+	{name: "args-api", kind: "reg", apiArgs: true, want: func(n int) int { return n },
+		src: `return function(...) mark() return select('#', ...) end`},
 	{name: "pushn", kind: "reg", want: func(n int) int { return n },
 		src: `return pcall(function() mark() return pushn(N) end)`},
 	{name: "rec-api", kind: "call", api: true, want: func(n int) int { return n },
@@ -740,7 +777,7 @@ func findLimitProg(name string) *limitProg {
 
 // need measures what N costs under the measuring configuration: frames (MaxSp) or registry cells.
 func limitJob(p *limitProg, cfg Cfg, n int) Job {
-	return Job{Cfg: cfg, Prog: p.src, N: n, Co: p.co, Want: p.want(n), Api: p.api, Kind: p.kind}
+	return Job{Cfg: cfg, Prog: p.src, N: n, Co: p.co, Want: p.want(n), Api: p.api || p.apiArgs, ApiArgs: p.apiArgs, Kind: p.kind}
 }
 
 func limitCase(w *lib.Writer, in LimitIn, p *limitProg, need int, measFail string, o JobOut) {
@@ -859,6 +896,14 @@ func limitTargets(p *limitProg, cfg Cfg, r *lib.Rand, tier string) []int {
 		if tier == "thorough" {
 			ts = append(ts, l-3, l+8, l+40)
 		}
+	}
+	if p.wide {
+		ts = append(ts, lims[len(lims)-1]+57, lims[len(lims)-1]+160)
+	}
+	if p.apiArgs {
+		// the callee needs two cells per argument, the Go caller's pushes one: also aim beyond twice the limit
+		// so that the pushes themselves (made by CallByParam before the call) overflow
+		ts = append(ts, 2*lims[len(lims)-1]+8, 2*lims[len(lims)-1]+50)
 	}
 	ts = append(ts, lims[0]/2+1)
 	if tier == "thorough" || r.Chance(30) {
